@@ -16,7 +16,7 @@ GEOM_KEYS = ("paperw", "paperh", "margl", "margr", "margt", "margb", "headery", 
 PRIMS = ("strat", "n", "h", "nlev", "chg", "schg", "div", "newpage", "pbrow", "pbhdr", "nrow", "hdr",
          "foot", "src", "ptitle", "pfoot", "psrc", "title", "subline",
          "font", "size", "paper", "pghf", "pagefirst", "pagelast", "bodyfirst", "bodylast", "utop", "ubot",
-         "ndata", "gpos", "relwk", "hdrw")
+         "ndata", "gpos", "relwk", "hdrw", "ushape")
 
 PAPERS = {
     "letter": {},
@@ -27,7 +27,7 @@ PAPERS = {
 }
 PRIM_DEFAULTS = {"font": 1, "size": 9, "paper": "letter", "pghf": 0, "pagefirst": "double", "pagelast": "double",
                  "bodyfirst": "single", "bodylast": "single", "utop": "", "ubot": "",
-                 "ndata": 2, "gpos": "first", "relwk": "equal", "hdrw": False}
+                 "ndata": 2, "gpos": "first", "relwk": "equal", "hdrw": False, "ushape": "scalar"}
 
 RELW = {"equal": lambda j: 1.0, "asc": lambda j: 1.0 + 0.5 * j, "mixed": lambda j: [0.2, 10.0, 1.3, 2.7, 0.9, 4.4][j % 6],
         "tenths": lambda j: [1.7, 0.3, 2.9, 5.1, 0.7, 3.3][j % 6]}
@@ -45,6 +45,7 @@ def opts_from_cfg(c, over=None):
     o["gpos"] = c.get("gpos", "first")
     o["relwk"] = c.get("relwk", "equal")
     o["hdr_own_widths"] = bool(c.get("hdrw", False))
+    o["ushape"] = c.get("ushape", "scalar")
     o.update(over or {})
     return o
 
@@ -58,7 +59,7 @@ DEFAULT_OPTS = {
     "col_width": None,
     "font": 1, "size": 9,       # body font / size (scalar)
     "pagefirst": "double", "pagelast": "double", "bodyfirst": "single", "bodylast": "single",
-    "utop": "", "ubot": "", "uleft": "single", "uright": "single",
+    "utop": "", "ubot": "", "uleft": "single", "uright": "single", "ushape": "scalar",
     "pghdr": False, "pgftr": False,
     "hdr_own_widths": False, "gpos": "first", "relwk": "equal",
     "texts": None,              # explicit cell values [[...]] for the data columns (C02)
@@ -116,6 +117,8 @@ def pb_text(c, v, r):
     if div is True:
         div = "second"
     if div == "second" and v == c["nlev"] and i == 2:
+        return "-----"
+    if div == "outer" and v < c["nlev"] and i == 2:
         return "-----"
     if div == "first" and v == c["nlev"] and c["nlev"] >= 2 and val_idx(c, v - 1, r) >= 2:
         return "-----" if i == 1 else "~P%d.%d~" % (v, i - 1)
@@ -210,10 +213,17 @@ def build(c, o, nrows=None):
     body_kw = dict(border_first=o["bodyfirst"], border_last=o["bodylast"],
                    border_left=o["uleft"], border_right=o["uright"],
                    pageby_header=c["pbhdr"], text_convert=o["convert"])
+    # user borders on the cells: scalar, per column, or per cell (original rows x original columns)
+    def umatrix(style):
+        if o.get("ushape", "scalar") == "col":
+            return [[style if j % 2 == 0 else "" for j in range(len(cols))]]
+        if o.get("ushape") == "matrix" and n > 0:
+            return [[style if (r + j) % 2 == 0 else "" for j in range(len(cols))] for r in range(n)]
+        return style
     if o["utop"]:
-        body_kw["border_top"] = o["utop"]
+        body_kw["border_top"] = umatrix(o["utop"])
     if o["ubot"]:
-        body_kw["border_bottom"] = o["ubot"]
+        body_kw["border_bottom"] = umatrix(o["ubot"])
     if o["relw"] or o.get("relwk", "equal") != "equal":
         body_kw["col_rel_width"] = list(relw_all)
     if o["font"] != 1:
@@ -257,8 +267,21 @@ def build(c, o, nrows=None):
     if o["pgftr"]:
         kw["rtf_page_footer"] = rtf.RTFPageFooter(text="~PF~")
     doc = rtf.RTFDocument(**kw)
+    def expanded(style):
+        m = umatrix(style) if style else ""
+        keep_idx = [j for j, x in enumerate(cols) if x in kept]
+        out = []
+        for r in range(n):
+            if isinstance(m, str):
+                out.append([m for _ in keep_idx])
+            else:
+                row = m[r % len(m)]
+                out.append([row[j % len(row)] for j in keep_idx])
+        return out
     info = {"cols": cols, "kept": kept, "relw_kept": relw_kept, "page": page, "data": data,
-            "colw_total": colw_total}
+            "colw_total": colw_total, "utopm": expanded(o["utop"]), "ubotm": expanded(o["ubot"]),
+            # first row of border_top as the caller wrote it (original column positions)
+            "utop0raw": (list(umatrix(o["utop"])[0]) if o["utop"] and not isinstance(umatrix(o["utop"]), str) else [])}
     return doc, info
 
 
@@ -391,7 +414,7 @@ def expected_extras(c, o, info):
     return {
         "rows": rows, "geom": geom, "landscape": o["orientation"] == "landscape",
         "pghdr": bool(o["pghdr"]), "pgftr": bool(o["pgftr"]),
-        "uleft": o["uleft"], "uright": o["uright"],
+        "uleft": o["uleft"], "uright": o["uright"], "utopm": info["utopm"], "ubotm": info["ubotm"], "utop0raw": info["utop0raw"],
         "W": _twip(info["colw_total"]),
         "relw": [int(round(w * 10)) for w in info["relw_kept"]],
         "hdrinherit": (c["hdr"] in ("default", "explicit") and not o["hdr_own_widths"]),
